@@ -25,14 +25,12 @@ fn in_range(r: &impl RangeBounds<u32>, v: u32) -> bool {
     lo_ok && hi_ok
 }
 
-/// S-timer
-pub fn stub_generate_time(this: &mut TimerDevice) -> u32 {
+/// S-rng: the generator's next 32-bit output is arbitrary
+pub fn stub_next_u32(_this: &mut rand::rngs::StdRng) -> u32 {
     unsafe {
         let j = if NSAMPLED < NS { NSAMPLED } else { NS - 1 };
         NSAMPLED += 1;
-        let v = SAMPLES[j];
-        nd::assume(in_range(&this.get_range(), v));
-        v
+        SAMPLES[j]
     }
 }
 /// S-seed: seeding StdRng runs ChaCha's CPU-feature detection (inline asm `cpuid`, unsupported by
@@ -68,17 +66,15 @@ fn any_timer(lo: u32, hi: u32, incl: bool) -> (TimerDevice, u32) {
     (t, t0)
 }
 
-crate::harnesses! {
-    // one poll from an arbitrary timer state, full u32 width
-    #[kani::unwind(14)]
-    #[kani::stub(lc3_ensemble::sim::device::TimerDevice::try_generate_time, stub_generate_time)]
-    #[kani::stub(<rand::rngs::StdRng as rand::SeedableRng>::from_seed, stub_from_seed)]
-    fn c34_one_poll() {
+/// one poll from an arbitrary timer state; `max_width`: bound on hi - lo
+fn one_poll(max_width: u32) {
         draw_samples();
         let lo: u32 = nd::any();
         let hi: u32 = nd::any();
         let incl: bool = nd::any();
         nd::assume(if incl { lo <= hi } else { lo < hi });
+        // width of the range below 2^16 (the sampler multiplies a random 32-bit word by the width)
+        nd::assume(hi - lo < max_width);
         let (mut t, t0) = any_timer(lo, hi, incl);
         let en: bool = nd::any();
         t.enabled = en;
@@ -106,9 +102,19 @@ crate::harnesses! {
         std::mem::forget(r);
         std::mem::forget(t);
     }
+
+crate::harnesses! {
+    #[kani::unwind(14)]
+    #[kani::stub(<rand::rngs::StdRng as rand::RngCore>::next_u32, stub_next_u32)]
+    #[kani::stub(<rand::rngs::StdRng as rand::SeedableRng>::from_seed, stub_from_seed)]
+    fn c34_one_poll() { one_poll(0x100) }
+    #[kani::unwind(14)]
+    #[kani::stub(<rand::rngs::StdRng as rand::RngCore>::next_u32, stub_next_u32)]
+    #[kani::stub(<rand::rngs::StdRng as rand::SeedableRng>::from_seed, stub_from_seed)]
+    fn c34_one_poll_w16() { one_poll(0x1_0000) }
     // gaps between consecutive interrupts over a poll sequence, small ranges
     #[kani::unwind(14)]
-    #[kani::stub(lc3_ensemble::sim::device::TimerDevice::try_generate_time, stub_generate_time)]
+    #[kani::stub(<rand::rngs::StdRng as rand::RngCore>::next_u32, stub_next_u32)]
     #[kani::stub(<rand::rngs::StdRng as rand::SeedableRng>::from_seed, stub_from_seed)]
     fn c34_gaps() {
         draw_samples();
@@ -116,7 +122,9 @@ crate::harnesses! {
         let hi: u32 = nd::any();
         nd::assume(1 <= lo && lo <= hi && hi <= 3);
         let exact: bool = nd::any();
-        let mut t = TimerDevice::new(Some(0), lo..=hi, 0x81, 4);
+        // the same interval written with an inclusive or an exclusive upper bound
+        let excl: bool = nd::any();
+        let mut t = if excl { TimerDevice::new(Some(0), lo..hi + 1, 0x81, 4) } else { TimerDevice::new(Some(0), lo..=hi, 0x81, 4) };
         if exact {
             nd::assume(lo == hi);
             t.set_exact(lo);
@@ -153,11 +161,12 @@ crate::harnesses! {
         assert!(fired >= 2, "enabled timer stopped raising interrupts");
         crate::nd_cover!(fired == 5, "gap 1 sequence");
         crate::nd_cover!(lo == 3 && hi == 3, "exact 3");
+        crate::nd_cover!(excl && lo < hi, "exclusive upper bound");
         std::mem::forget(t);
     }
     // a disabled timer never fires, however long it is polled (inductive: one poll keeps the state)
     #[kani::unwind(14)]
-    #[kani::stub(lc3_ensemble::sim::device::TimerDevice::try_generate_time, stub_generate_time)]
+    #[kani::stub(<rand::rngs::StdRng as rand::RngCore>::next_u32, stub_next_u32)]
     #[kani::stub(<rand::rngs::StdRng as rand::SeedableRng>::from_seed, stub_from_seed)]
     fn c34_disabled() {
         draw_samples();
